@@ -63,7 +63,7 @@ PROPS = {
     },
     'C09': {
         'streams': [S('C09', 900, 25000)],
-        'explanation': 'theorems: %v = Error() for every tree of every kind with plain strings (no newline; ASCII where escaped); exactly one entry per visible layer for every tree / flags / state; types line. Correspondence: %v and %+v byte-equal model vs implementation (local and decoded); Go relation: %v = %s = Error(), %q/%x/%X/width/precision/flags = fmt on the Error() string, entry count, Error types line, bad verbs',
+        'explanation': 'theorems: %v = Error() for every tree of every kind with plain strings (no newline; ASCII where escaped), *net.OpError included when it has at most one of source / address; C09_v_s_operror_refuted: with both, %v prints "src -> addr" and Error() "src->addr" (recorded finding operror-arrow-spacing, shown on the code by the Go relation); exactly one entry per visible layer for every tree / flags / state; types line. Correspondence: %v and %+v byte-equal model vs implementation (local and decoded); Go relation: %v = %s = Error(), %q/%x/%X/width/precision/flags = fmt on the Error() string, entry count, Error types line, bad verbs',
         'not_yet_proved': ['the layout of each entry of %+v; %v = Error() for strings with interior newlines (false for arbitrary newlines)'],
         'assumptions': [ASSUME_UNIVERSE, "Go's fmt for %q/%x/%X/width/precision is not modelled (oracle only)"],
     },
@@ -75,7 +75,7 @@ PROPS = {
     },
     'C11': {
         'streams': [S('C11', 1200, 25000)],
-        'explanation': 'theorems: every accessor is a function of the erasure; exact-kind errors keep every annotation and per-layer safe details over any number of knowing hops; every error is stable from the second hop on; every annotation layer is rebuilt over any cause; the printed-stack codec: parse(print st) = st for every stack whose names have no newline (each side condition shown necessary), so stack layers of the library and of pkg/errors report the captured frames and the same one-line source after a hop to ANY process; unknowing hops invisible later. Correspondence: every accessor, per-layer safe details, reportable stacks, one-line source before and after 1 and 2 knowing hops; Go relation: accessor vector equal after hops 1..3',
+        'explanation': 'theorems: every accessor is a function of the erasure; exact-kind errors keep every annotation and per-layer safe details over any number of knowing hops; every error is stable from the second hop on; every annotation layer is rebuilt over any cause; an errno received from another platform keeps its predicates over any number of hops (after the library repair 176a263; the first-hop stability theorem no longer has a side condition); the printed-stack codec: parse(print st) = st for every stack whose names have no newline (each side condition shown necessary), so stack layers of the library and of pkg/errors report the captured frames and the same one-line source after a hop to ANY process; unknowing hops invisible later. Correspondence: every accessor, per-layer safe details, reportable stacks, one-line source before and after 1 and 2 knowing hops; Go relation: accessor vector equal after hops 1..3',
         'not_yet_proved': [],
         'assumptions': [ASSUME_UNIVERSE],
     },
@@ -112,6 +112,7 @@ PROPS = {
         'explanation': 'theorems: the forwarding table regenerated from the source passes the static offset check, and the check is sound for the frame-counting semantics for every depth and stack. Run: every named function x depth 0..3 through non-inlinable call chains across packages, first frame / one-line source / package domain compared with the expected caller',
         'assumptions': ['runtime.Callers / runtime.Caller report logical frames as documented, also under inlining (exercised, not proved)'],
         'rule': 'one case per (exported stack-capturing or domain function, call shape, depth); all are non-trivial',
+        'trusted_extra': ['translators/depthtab (go/ast, ~300 lines): reads every exported function of the root package, errutil, withstack, domains, barriers, assert ... from /repo on every run and writes coq/Gen/DepthTable.v (callee, depth expression offset per forwarding call); the theorem C16_table_ok is about that regenerated table; its completeness (every function named by the property is in the table and exercised) is re-checked by the harness from the same extraction (build/depth_entries.json)'],
     },
     'C17': {
         'streams': [AUX('C17', '{build}/verifharness migrate {out}', 1, 1, model=True)],
@@ -124,6 +125,7 @@ PROPS = {
         'explanation': 'theorems: the write-effect table regenerated from the source (go/ssa, every function reachable from the observer API) lists no write to shared state; threads that do not write shared state are schedule-independent (any interleaving, any number of threads). Run: 16 goroutines x all observers on shared local / decoded / opaque errors of every kind under the race detector, results compared with the solo run',
         'assumptions': ['Go memory model for read-only sharing', 'soundness of the SSA write-effect extraction, including its caller-owned whitelist (translators/effects/main.go)', 'fmt, redact, logtags, sentry-go are exercised by the race detector only'],
         'rule': 'one case per goroutine run of the full observer set on a shared error; distinct = number of distinct trees',
+        'trusted_extra': ['translators/effects (go/ssa + class-hierarchy call graph from golang.org/x/tools v0.29.0, ~400 lines): every function reachable from the observer API of /repo is scanned on every run for stores to fields / globals / slice elements / maps not allocated in the same function; writes coq/Gen/Effects.v; the whitelist of caller-owned buffers is in translators/effects/main.go and is part of the trusted base'],
     },
     'C20': {
         'streams': [AUX('C20', '{build}/verifharness grpc -seed {seed} -n {n} -out {out}', 150, 3000)],
